@@ -57,6 +57,7 @@ PROPS = {
         "builds": ["asan"],
         "areas": [
             {"area": "fmt", "n": {"quick": 1600, "thorough": 40000}, "builds": ["asan"]},
+            {"area": "cli", "n": {"quick": 320, "thorough": 6000}, "extra": ["convert"], "builds": ["asan"]},
         ],
         "rule": "bit tables of width 0..1100 (every residue mod 8/64/255/256 near the boundaries; all-zero, all-one, single-bit, sparse, dense, runs of 253..256 zeros), any M/D/L split: "
                 "bytes of MeasureRecordWriter (write_bit / write_bits / write_bytes paths) and write_table_data (incl. ptb64, reference-sample XOR) vs the Lean reference encoders; "
@@ -108,6 +109,7 @@ PROPS = {
         "areas": [
             {"area": "gatetab", "n": 1, "extra": ["Frame"]},
             {"area": "fsim", "n": {"quick": 500, "thorough": 10000}, "replayable": True},
+            {"area": "cli", "n": {"quick": 240, "thorough": 5000}, "extra": ["sample"]},
         ],
         "rule": "noisy generated circuits (every gate, noise channel incl. heralded and correlated ones with p in {0, 1/4, 1}, measurement-flip arguments, feedback, sweep-controlled gates, "
                 "REPEAT) and QEC-like circuits; per circuit 1..130 shots from FrameSimulator (3 widths) and 3..257 shots from sample_batch_measurements: every record must lie in the affine space "
@@ -119,9 +121,10 @@ PROPS = {
         "assumptions": ["disjoint / heralded / correlated channels are over-approximated by the span of their Paulis (sound for the validity check)"],
     },
     "C04": {
-        "lean_modules": ["StimModel.Props.C04", "StimModel.Props.GF2", "StimModel.Props.GF2c"],
+        "lean_modules": ["StimModel.Props.C04", "StimModel.Props.C04b", "StimModel.Props.GF2", "StimModel.Props.GF2c"],
         "areas": [
             {"area": "fsim", "n": {"quick": 500, "thorough": 10000}, "replayable": True},
+            {"area": "cli", "n": {"quick": 240, "thorough": 5000}, "extra": ["detect", "m2d"]},
         ],
         "rule": "for every shot of the fsim area the detection events and observable flips reported for that same shot are recomputed in Lean as XORs of the shot's measurement flips "
                 "(relative to the implementation's reference sample, itself checked to be a possible noiseless record); measurements_to_detection_events on sampled and adversarial "
@@ -136,6 +139,7 @@ PROPS = {
         "areas": [
             {"area": "gatetab", "n": 1, "extra": ["Rev"]},
             {"area": "cdem", "shrink": True, "n": {"quick": 400, "thorough": 10000}, "replayable": True},
+            {"area": "cli", "n": {"quick": 100, "thorough": 2000}, "extra": ["analyze_errors"]},
         ],
         "rule": "QEC-like circuits with deterministic detectors (random stabilizer groups measured by MPP over several rounds, random Clifford gates with chained pairs between rounds with the measured "
                 "products conjugated along, REPEAT, feedback, every noise channel incl. measurement-flip arguments, heralded and E/ELSE chains) and arbitrary annotated noisy circuits (mostly "
@@ -184,6 +188,7 @@ PROPS = {
         "lean_modules": ["StimModel.Props.C10", "StimModel.Props.C03", "StimModel.Props.Fourier"],
         "areas": [
             {"area": "cdem", "shrink": True, "n": {"quick": 500, "thorough": 8000}, "extra": ["decompose"], "replayable": True},
+            {"area": "cli", "n": {"quick": 100, "thorough": 2000}, "extra": ["analyze_errors", "decompose"]},
         ],
         "rule": "the circuits of the cdem area (multi-qubit channels between multi-body stabilizer measurements: errors touching 3..8 detectors and observables) analysed with "
                 "decompose_errors x ignore_decomposition_failures x block_decomposition_from_introducing_remnant_edges x fold_loops x allow_gauge x approximate: the decomposed model is judged by the "
@@ -198,6 +203,7 @@ PROPS = {
         "builds": ["asan"],
         "areas": [
             {"area": "demsample", "n": {"quick": 300, "thorough": 6000}, "builds": ["asan"], "replayable": True},
+            {"area": "cli", "n": {"quick": 150, "thorough": 3000}, "extra": ["sample_dem"], "builds": ["asan"]},
         ],
         "rule": "generated models (nested repeats incl. repeat 0, shifts, separators, duplicate and cancelling targets, observables up to L39, probabilities {0, 0.01, 1/4, 1/2, 1}); "
                 "shot counts {1, 63, 64, 65, 255, 256, 257, 1000, 2500} x 3 word widths; per model the first 12, the stripe-boundary and the last 10 shots of sample_write's three files go to the "
@@ -225,6 +231,7 @@ PROPS = {
         "lean_modules": ["StimModel.Props.C18"],
         "areas": [
             {"area": "explain", "shrink": True, "n": {"quick": 400, "thorough": 8000}, "replayable": True},
+            {"area": "cli", "n": {"quick": 80, "thorough": 1500}, "extra": ["explain_errors"]},
         ],
         "rule": "noisy annotated circuits (repetition-code-like circuits with REPEAT nesting up to depth 3, TICKs, QUBIT_COORDS, SHIFT_COORDS, every measurement flavour with noise, "
                 "heralded channels, every Pauli channel type, E/ELSE chains, feedback; stabilizer-measurement circuits; random annotated circuits that are analysable), relabelled onto sparse qubit ids; "
@@ -274,6 +281,7 @@ PROPS = {
         "lean_modules": ["StimModel.Props.C19"],
         "areas": [
             {"area": "gencode", "n": {"quick": 240, "thorough": 2400}, "replayable": False, "timeout": 3000},
+            {"area": "cli", "n": {"quick": 60, "thorough": 600}, "extra": ["gen"], "timeout": 3000},
         ],
         "rule": "all six (code, task) pairs in turn; distances 2..9 (odd 3..9 for the colour code), rounds 1..8 (2.. for the colour code), all 16 subsets of the four noise parameters with values from "
                 "{0.001, 0.01, 0.125, 0.5, 1}: text round trip and re-print fixpoint, closed-form detector counts (repetition, unrotated, odd rotated), one observable; distances 2..4 / rounds 1..3 additionally "
